@@ -50,6 +50,9 @@ def _apply(ps, env, o):
         env["ind:" + o["name"]] = ps.IndicatorFromMathExpression(name=o["name"], expression=expr)
     elif k == "buffer":
         env["buf:" + o["name"]] = ps.NonConcurrentBuffer(name=o["name"], initial_level=0)
+    elif k == "objective":
+        kw = {} if o["weight"] < 0 else {"weight": o["weight"]}
+        getattr(ps, o["cls"])(target=env["ind:" + o["target"]], **kw)
     elif k == "constraint":
         cls = o["cls"]
         kw = dict(name=o["name"], optional=o.get("optional", False))
